@@ -26,7 +26,7 @@ namespace GeographicLib {
       throw GeographicErr("Latitude " + Utility::str(lat)
                           + "d not in [-" + to_string(Math::qd)
                           + "d, " + to_string(Math::qd) + "d]");
-    if (isnan(lat) || isnan(lon)) {
+    if (isnan(lat) || !isfinite(lon)) { // AngNormalize(+/-inf) is a NaN
       geohash = "invalid";
       return;
     }
